@@ -1,3 +1,4 @@
+import MdsVerif.GenFact
 import MdsVerif.Model.Mbits
 import MdsVerif.Spec.Bytes
 /-!
@@ -29,8 +30,7 @@ theorem zTail_succ (n f i : Nat) (d : Bytes) :
         | some d' => zTail n f (i + 1) d'
       else .ok d := by
   rw [zTail]
-  have e : (Gen.Small.zeroTailCond i n = true) = (i < n) := by
-    unfold Gen.Small.zeroTailCond; rw [decide_eq_true_eq]; apply propext; omega
+  have e : (Gen.Small.zeroTailCond i n = true) = (i < n) := by gen_fact Gen.Small.zeroTailCond
   simp only [e]; rfl
 
 theorem zWords_succ (n m f i : Nat) (d : Bytes) :
@@ -41,9 +41,8 @@ theorem zWords_succ (n m f i : Nat) (d : Bytes) :
         | some d' => zWords n m f (i + 8) d'
       else zTail n (n + 1) i d := by
   rw [zWords]
-  have e : (Gen.Small.zeroWordCond i m = true) = (i < m) := by
-    unfold Gen.Small.zeroWordCond; rw [decide_eq_true_eq]; apply propext; omega
-  have e8 : Gen.Small.zeroStride = 8 := rfl
+  have e : (Gen.Small.zeroWordCond i m = true) = (i < m) := by gen_fact Gen.Small.zeroWordCond
+  have e8 : Gen.Small.zeroStride = 8 := by gen_fact Gen.Small.zeroStride
   simp only [e, e8]; rfl
 
 theorem zero_def (d : Bytes) :
@@ -60,8 +59,7 @@ theorem lzTail_succ (d : Bytes) (n f i : Nat) :
         | some b => if b == 0 then lzTail d n f (i + 1) else .ok i
       else .ok i := by
   rw [lzTail]
-  have e : (Gen.Small.lzTailCond i n = true) = (i < n) := by
-    unfold Gen.Small.lzTailCond; rw [decide_eq_true_eq]; apply propext; omega
+  have e : (Gen.Small.lzTailCond i n = true) = (i < n) := by gen_fact Gen.Small.lzTailCond
   simp only [e]; rfl
 
 theorem lzWords_succ (d : Bytes) (n m f i : Nat) :
@@ -73,9 +71,8 @@ theorem lzWords_succ (d : Bytes) (n m f i : Nat) :
         | some false => lzWords d n m f (i + 8)
       else lzTail d n (n + 1) i := by
   rw [lzWords]
-  have e : (Gen.Small.lzWordCond i m = true) = (i < m) := by
-    unfold Gen.Small.lzWordCond; rw [decide_eq_true_eq]; apply propext; omega
-  have e8 : Gen.Small.lzStride = 8 := rfl
+  have e : (Gen.Small.lzWordCond i m = true) = (i < m) := by gen_fact Gen.Small.lzWordCond
+  have e8 : Gen.Small.lzStride = 8 := by gen_fact Gen.Small.lzStride
   simp only [e, e8]; rfl
 
 theorem leadingZeroes_def (d : Bytes) :
@@ -95,8 +92,7 @@ theorem tzTail_succ (d : Bytes) (f : Nat) (m : Int) (nz : Nat) :
         | some b => if b == 0 then tzTail d f (m - 1) (nz + 1) else .ok nz
       else .ok nz := by
   rw [tzTail]
-  have e : (Gen.Small.tzTailCond m = true) = (m ≥ 0) := by
-    unfold Gen.Small.tzTailCond; rw [decide_eq_true_eq]
+  have e : (Gen.Small.tzTailCond m = true) = (m ≥ 0) := by gen_fact Gen.Small.tzTailCond
   simp only [e]; rfl
 
 theorem tzWords_succ (d : Bytes) (n : Nat) (m : Int) (f : Nat) (i : Int) (nz : Nat) :
@@ -108,10 +104,9 @@ theorem tzWords_succ (d : Bytes) (n : Nat) (m : Int) (f : Nat) (i : Int) (nz : N
         | some false => tzWords d n m f (i - 8) (nz + 8)
       else tzTail d (n + 1) (m - 1) nz := by
   rw [tzWords]
-  have e : (Gen.Small.tzWordCond i m = true) = (i ≥ m) := by
-    unfold Gen.Small.tzWordCond; rw [decide_eq_true_eq]
-  have e8 : Gen.Small.tzStride = 8 := rfl
-  have e9 : Gen.Small.tzCountInc = 8 := rfl
+  have e : (Gen.Small.tzWordCond i m = true) = (i ≥ m) := by gen_fact Gen.Small.tzWordCond
+  have e8 : Gen.Small.tzStride = 8 := by gen_fact Gen.Small.tzStride
+  have e9 : Gen.Small.tzCountInc = 8 := by gen_fact Gen.Small.tzCountInc
   simp only [e, e8, e9]; rfl
 
 theorem trailingZeroes_def (d : Bytes) :
@@ -122,7 +117,7 @@ theorem trailingZeroes_def (d : Bytes) :
     unfold Gen.Small.tzRagged clear3
     have := Nat.and_le_left (n := d.length) (m := 7)
     omega
-  have hs : Gen.Small.tzStart (d.length : Int) = (d.length : Int) - 8 := rfl
+  have hs : Gen.Small.tzStart (d.length : Int) = (d.length : Int) - 8 := by gen_fact Gen.Small.tzStart
   simp only [hm, hs]
 end defs
 
